@@ -30,9 +30,9 @@ type recvScn struct {
 	UseIDs   bool             `json:"useids"` // -o -g: send uid/gid fields
 	Users    []wirekit.IDName `json:"users"`
 	Groups   []wirekit.IDName `json:"groups"`
-	Judge    []string         `json:"judge"` // aspects the property under check constrains (echoed for RecvTrace)
+	Judge    []string         `json:"judge"`  // aspects the property under check constrains (echoed for RecvTrace)
 	Repeat   bool             `json:"repeat"` // run the same session a second time against the resulting destination (C12)
-	Sub      string           `json:"sub"`   // daemon receiver: destination argument after module-name stripping ("" = "/", the module root)
+	Sub      string           `json:"sub"`    // daemon receiver: destination argument after module-name stripping ("" = "/", the module root)
 }
 
 type recvEntry struct {
